@@ -276,18 +276,18 @@ def consistent(f, path, decs):
         if subj[0] == 'arg' and f.local_ty(subj[1]).startswith('&') and not f.local_ty(subj[1]).startswith('&mut') and cond[0] == 'discr':
             # the variant of `*arg` behind a shared reference cannot change during the call
             (_, a), = path_atoms(f, path, [d])
+            place = repr(a[1])    # the very place whose variant is tested (e.g. `*self`, or `(*self as Queue).0`)
             if a[0] == 'is':
-                k = ('isarg', subj[1])
+                k = ('isarg', place)
                 if k in seen and seen[k] != a[2]:
                     return False
                 seen.setdefault(k, a[2])
-                for k2, vs in list(seen.items()):
-                    if k2 == ('notarg', subj[1]) and a[2] in vs:
-                        return False
-            elif a[0] == 'isnot':
-                if seen.get(('isarg', subj[1])) in a[2]:
+                if a[2] in seen.get(('notarg', place), ()):
                     return False
-                seen.setdefault(('notarg', subj[1]), set()).update(a[2])
+            elif a[0] == 'isnot':
+                if seen.get(('isarg', place)) in a[2]:
+                    return False
+                seen.setdefault(('notarg', place), set()).update(a[2])
             continue
         if subj[0] != 'call' or f.loops_containing(subj[3]) or f.loops_containing(b):
             continue
@@ -362,6 +362,29 @@ def untry(a):
             continue
         return a
     return a
+
+
+def path_ret_resolved(f, path):
+    """like path_ret, but a returned local that merges several definitions is resolved to the one executed on this path"""
+    last = None
+    for idx, b in enumerate(path):
+        for i, st in enumerate(f.stmts(b)):
+            if st['k'] == 'assign' and st['p']['l'] == 0 and not st['p']['pr']:
+                v = f.expr_rvalue(st['r'], b, i)
+                if st['r']['k'] == 'use' and peel(v)[0] == 'phi':
+                    v = f.expr_operand_on_path(st['r']['o'], path, idx, i)
+                last = v
+        t = f.term(b)
+        if t['k'] == 'call' and t['dest']['l'] == 0 and not t['dest']['pr']:
+            s = Site(f, b, t)
+            args = []
+            for a in t['args']:
+                v = f.expr_operand(a, b, 'T')
+                if peel(v)[0] == 'phi':
+                    v = f.expr_operand_on_path(a, path, idx, 'T')
+                args.append(v)
+            last = ('call', s.name, tuple(args), b)
+    return last
 
 
 def call_outcomes(f, path, decs, callee):
